@@ -219,3 +219,116 @@ def switch_variants_of_target(t, target):
         named = {x.get("variant") for x in t["targets"]}
         listed += [v for v in t["all_variants"] if v not in named]
     return listed
+
+
+# ---- path-sensitive reachability w.r.t. known enum discriminants
+# variant transformers of the pinned parser-combinator crate (abortable_parser =0.2.3, read from its source;
+# facts.py refuses to load another version): callee -> (index of the Result argument, variant map)
+_AP = "abortable_parser::combinators::"
+VARIANT_SUMMARIES = {
+    _AP + "must": (0, {"Complete": "Complete", "Incomplete": "Incomplete", "Fail": "Abort", "Abort": "Abort"}),
+    _AP + "must_complete": (0, {"Complete": "Complete", "Incomplete": "Abort", "Fail": "Abort", "Abort": "Abort"}),
+    _AP + "optional": (1, {"Complete": "Complete", "Incomplete": "Incomplete", "Fail": "Complete", "Abort": "Abort"}),
+    _AP + "not": (1, {"Complete": "Fail", "Incomplete": "Incomplete", "Fail": "Complete", "Abort": "Abort"}),
+    _AP + "complete": (0, {"Complete": "Complete", "Incomplete": "Fail", "Fail": "Fail", "Abort": "Abort"}),
+}
+def _switch_sources(fn):
+    """locals whose discriminant some switch reads directly (`discriminant(_x)` or through one `&_x`)"""
+    out = set()
+    for b, blk in enumerate(fn.blocks):
+        t = blk["term"]
+        if t["k"] == "switch" and "src" in t:
+            out.add(t["src"]["l"])
+    return out
+
+
+def reachable_ps(fn, start, removed=(), init=None, parents=None):
+    """like reachable(), but a path that has assigned `_x = Enum::V(..)` (aggregate) and reaches
+    `switch discriminant(_x)` with no redefinition in between follows only V's edge (the parser macros'
+    `let r = match .. { .. => Fail(..) }; match r { .. }` shape).  Knowledge is dropped on any other
+    assignment to _x, on a call writing it, and when a reference to it is passed to a call."""
+    s = succs(fn)
+    removed = set(removed)
+    tracked = _switch_sources(fn)
+    # reference locals -> the tracked local they point to (single `&_x` / `&mut _x`)
+    refs = {}
+    for b, j, pl, rv, m in fn.assigns():
+        if rv["k"] == "ref" and not rv["place"]["p"] and not pl["p"]:
+            refs.setdefault(pl["l"], set()).add(rv["place"]["l"])
+    if isinstance(start, int):
+        start = [start]
+    init = frozenset(init or ())
+    seen = set()
+    work = [(b, init) for b in start if b not in removed]
+    seen.update(work)
+    blocks = set(b for b, _ in work)
+    while work:
+        b, known = work.pop()
+        k = dict(known)
+        blk = fn.blocks[b]
+        for st in blk["stmts"]:
+            if st[0] == "assign":
+                pl, rv = st[1], st[2]
+                l = pl["l"]
+                if pl["p"]:
+                    if l in k and "*" not in pl["p"]:
+                        k.pop(l, None)
+                    continue
+                if rv["k"] == "agg" and rv.get("variant") is not None and rv.get("adt", "").find("::") > 0:
+                    k[l] = rv["variant"]
+                elif rv["k"] == "use":
+                    src = rv["ops"][0].get("move") or rv["ops"][0].get("copy")
+                    if src is not None and not src["p"] and src["l"] in k:
+                        k[l] = k[src["l"]]
+                    else:
+                        k.pop(l, None)
+                else:
+                    k.pop(l, None)
+            elif st[0] == "setdiscr":
+                k.pop(st[1]["l"], None)
+        t = blk["term"]
+        nxt = s[b]
+        if t["k"] == "call":
+            k.pop(t["dest"]["l"], None)
+            summ = VARIANT_SUMMARIES.get(t.get("resolved") or t.get("callee"))
+            if summ is not None and not t["dest"]["p"] and summ[0] < len(t["args"]):
+                ap = t["args"][summ[0]].get("move") or t["args"][summ[0]].get("copy")
+                if ap is not None and not ap["p"] and ap["l"] in k and k[ap["l"]] in summ[1]:
+                    k[t["dest"]["l"]] = summ[1][k[ap["l"]]]
+            for a in t["args"]:
+                p = a.get("move") or a.get("copy")
+                if p is not None:
+                    for tgt in refs.get(p["l"], ()):
+                        # a shared reference cannot change the variant; a mutable one can
+                        if fn.local_ty(p["l"]).startswith("&mut"):
+                            k.pop(tgt, None)
+        elif t["k"] == "switch" and "src" in t:
+            src = t["src"]
+            base = None
+            if not src["p"]:
+                base = src["l"]
+            elif src["p"] == ["*"] and len(refs.get(src["l"], ())) == 1:
+                base = next(iter(refs[src["l"]]))
+            if base is not None and base in k:
+                v = k[base]
+                tgt = None
+                for x in t["targets"]:
+                    if x.get("variant") == v:
+                        tgt = x["t"]
+                if tgt is None:
+                    tgt = t["otherwise"]
+                nxt = [tgt]
+        elif t["k"] == "drop":
+            k.pop(t["place"]["l"], None)
+        fk = frozenset(k.items())
+        for n in nxt:
+            if n in removed:
+                continue
+            key = (n, fk)
+            if key not in seen:
+                seen.add(key)
+                blocks.add(n)
+                work.append(key)
+                if parents is not None:
+                    parents[key] = (b, known)
+    return blocks
